@@ -18,6 +18,9 @@ TYPES = {"int": int, "slice": slice, "list": list, "tuple": tuple, "bool": bool,
          "str": str, "dict": dict}
 
 
+HELPERS: dict = {}  # name -> FunctionDef of module-level predicates a validator may call (set by the rule that runs it)
+
+
 class Interp:
     def __init__(self, env: dict, rule: str):
         self.env = dict(env)
@@ -126,6 +129,16 @@ class Interp:
             return (min if "min" in name else max)(vals)
         if name == "len" and len(e.args) == 1:
             return len(self.ev(e.args[0]))
+        if name in HELPERS and not e.keywords:
+            fn = HELPERS[name]
+            params = [a.arg for a in fn.args.args]
+            if len(params) == len(e.args) and not fn.args.vararg and not fn.args.kwarg:
+                r = run_validator(fn.body, dict(zip(params, [self.ev(a) for a in e.args])), self.rule)
+                if r[0] == "return":
+                    return r[1]
+                if r[0] == "fall":
+                    return None
+                raise AnalysisError(self.rule, f"helper `{name}` ends with {r[0]} when called from a guard")
         raise AnalysisError(self.rule, f"call `{norm(e)}` not understood in a guard")
 
     def ev_IfExp(self, e):
@@ -179,7 +192,7 @@ def run_validator(stmts: list[ast.stmt], env: dict, rule: str, depth: int = 0):
             exc = s.exc.func if isinstance(s.exc, ast.Call) else s.exc
             return ("raise", norm(exc))
         if isinstance(s, ast.Return):
-            return ("return", None)
+            return ("return", it.ev(s.value) if s.value is not None else None)
         if isinstance(s, ast.Continue):
             return ("continue", None)
         if isinstance(s, ast.Break):
